@@ -104,6 +104,7 @@ func world() {
 			balrd:   {Nonce: 1, Code: balrdCode, Balance: common.Big0},
 			factory: {Nonce: 1, Code: factoryCode, Balance: big.NewInt(1000)},
 		}
+		extraAlloc(alloc)
 		for i := 0; i < nEOA; i++ {
 			k, _ := crypto.ToECDSA(crypto.Keccak256([]byte(fmt.Sprintf("c33-eoa-%d", i))))
 			keys = append(keys, k)
@@ -320,7 +321,7 @@ type built struct {
 
 func word(v uint64) []byte { h := common.BigToHash(new(big.Int).SetUint64(v)); return h[:] }
 
-func randomTxs(r *Rng, g *core.BlockGen, tags map[string]bool) {
+func randomTxsV1(r *Rng, g *core.BlockGen, tags map[string]bool) {
 	n := r.Range(2, 9)
 	if r.Chance(1, 12) {
 		n = r.Range(0, 1)
@@ -423,7 +424,8 @@ func logsDigest(logs []*types.Log) []byte {
 	return crypto.Keccak256(enc)[:8]
 }
 func receiptOut(rc *types.Receipt) []byte {
-	return append([]byte{byte(rc.Status)}, logsDigest(rc.Logs)...)
+	out := append([]byte{byte(rc.Status)}, logsDigest(rc.Logs)...)
+	return append(out, rc.ContractAddress[:]...)
 }
 func requestsOut(reqs [][]byte) []byte {
 	if reqs == nil {
@@ -795,7 +797,7 @@ func build(seed uint64, nmut int) (res *built, err error) {
 	engine := beacon.New(ethash.NewFaker())
 	_, blocks, _ := core.GenerateChainWithGenesis(gspec, engine, 1, func(_ int, g *core.BlockGen) {
 		g.SetCoinbase(coinbase)
-		randomTxs(r, g, tags)
+		fillBlock(seed, r, g, tags)
 	})
 	block := blocks[0]
 	if block.AccessList() == nil {
@@ -1254,17 +1256,25 @@ func run(c Sx) Result {
 func gen(r *Rng, tier string, emit func(Sx)) {
 	world()
 	r = NewRng(r.U64())
-	ncases, nmut := 12, 32
+	ncases, nmut, nvar, smut := 8, 32, 1, 24
 	if tier == "thorough" {
-		ncases, nmut = 100, 48
+		ncases, nmut, nvar, smut = 80, 48, 5, 48
+	}
+	one := func(seed uint64, nm int) {
+		b, err := build(seed, nm)
+		if err != nil {
+			return
+		}
+		emit(b.caseSx(nm))
+	}
+	// the hand-built dependency scenarios (seed = id + nScen*variant), then random blocks
+	for v := 0; v < nvar; v++ {
+		for id := 0; id < nScen; id++ {
+			one(uint64(id+nScen*r.Intn(scenSeeds/nScen)), smut)
+		}
 	}
 	for i := 0; i < ncases; i++ {
-		seed := r.U64() >> 1
-		b, err := build(seed, nmut)
-		if err != nil {
-			continue
-		}
-		emit(b.caseSx(nmut))
+		one(scenSeeds+r.U64()>>1, nmut)
 	}
 }
 
